@@ -1135,29 +1135,29 @@ class UserSpace(BaseSpace, EditableParent):
 
     @BaseSpace.formula.setter
     def formula(self, formula):
-        self._impl.set_formula(formula)
+        self._impl.on_set_formula(formula)
 
     @formula.deleter
     def formula(self):
-        self._impl.del_formula()
+        self._impl.on_del_formula()
 
     def set_formula(self, formula):
         """Set if the parameter function."""
-        self._impl.set_formula(formula)
+        self._impl.on_set_formula(formula)
 
     @BaseSpace.parameters.setter
     def parameters(self, parameters):
         """Set formula from parameter list"""
         src = "lambda " + ", ".join(parameters) + ": None"
-        self._impl.set_formula(src)
+        self._impl.on_set_formula(src)
 
     @parameters.deleter
     def parameters(self):
-        self._impl.del_formula()
+        self._impl.on_del_formula()
 
     def del_formula(self):
         """Delete formula"""
-        self._impl.del_formula()
+        self._impl.on_del_formula()
 
     @Interface.doc.setter
     def doc(self, value):
@@ -1666,6 +1666,15 @@ class UserSpaceImpl(*_user_space_impl_base):
     def set_allow_none(self, value):
         self.allow_none = value
         # Dynamic spaces take over allow_none of their base when created
+        self.clear_subs_rootitems()
+
+    def on_set_formula(self, formula):
+        self.set_formula(formula)
+        # Dynamic spaces take over the formula of their base when created
+        self.clear_subs_rootitems()
+
+    def on_del_formula(self):
+        self.del_formula()
         self.clear_subs_rootitems()
 
     # ----------------------------------------------------------------------
